@@ -205,7 +205,10 @@ func (g *gen) mkTx(ins []outRef, k int, vote bool, timeRange uint64) *types.Tx {
 	if sum < fee+uint64(k)*1000000 {
 		k = 1
 	}
-	rest := sum - fee
+	rest := sum / 2
+	if sum > fee+1000 {
+		rest = sum - fee
+	}
 	var specs []cl.OutSpec
 	for i := 0; i < k; i++ {
 		a := rest / uint64(k-i)
@@ -465,7 +468,7 @@ func (g *gen) mutantBlock(parent *node, kind string) (*node, bool) {
 		if !ok {
 			return nil, false
 		}
-		ghost := g.mkTx([]outRef{o}, 2, false, 0) // never included anywhere
+		ghost := g.mkTx([]outRef{o}, 1, false, 0) // never included anywhere
 		txs = append(txs, g.mkTx([]outRef{{cl.Out{Tx: ghost, Pos: 0}, 0, h}}, 1, false, 0))
 	case "spend-spent":
 		var cand []outRef
